@@ -360,6 +360,43 @@ fn fold_fits(op: &str, args: &[RNum]) -> bool {
     true
 }
 
+fn euclid_variants(a: i128, b: i128) -> Vec<(String, &'static str, Vec<RNum>)> {
+    vec![
+        (format!("(/ {} {})", a, b), "/", vec![int(a), int(b)]),
+        (format!("(/ -{} {})", a, b), "/", vec![int(-a), int(b)]),
+        (format!("(* 1 {}/{})", a, b), "*", vec![int(1), int(a).div(int(b)).unwrap()]),
+        (format!("(- {}/{})", a, b), "-", vec![int(a).div(int(b)).unwrap()]),
+    ]
+}
+
+/// Euclid-depth ladder: quotients of consecutive and non-consecutive Fibonacci numbers up to
+/// F(46) < 2^31 (the inputs on which reducing a ratio takes the most steps, 1..44 of them), in both
+/// signs and both orders, written as literals and as ratio literals.
+fn euclid_phase(sp: &Space, acc: &mut Acc) {
+    let mut fib: Vec<i128> = vec![1, 1];
+    while fib.len() < 46 {
+        let k = fib.len();
+        fib.push(fib[k - 1] + fib[k - 2]);
+    }
+    let mut it = setup_interp(&sp.g);
+    for i in 1..fib.len() {
+        for j in 1..fib.len() {
+            let (a, b) = (fib[i], fib[j]);
+            for (k, (text, op, args)) in euclid_variants(a, b).into_iter().enumerate() {
+                if (i + j) % 3 != 0 && (i as i64 - j as i64).abs() > 2 {
+                    continue;
+                }
+                let out = it.eval(&text);
+                acc.evals += 1;
+                acc.count("Euclid-depth ladder (Fibonacci quotients)", 1);
+                if let Verdict::Bad(why) = judge(op, &args, &out) {
+                    acc.mismatch(Mismatch { idx: 6_000_000_000 + (i * 100 + j) as u64, case: text.clone(), expected: why, observed: format!("{}", out), payload: json!({"kind": "euclid", "a": a as i64, "b": b as i64, "variant": k}) }, None);
+                }
+            }
+        }
+    }
+}
+
 fn scale_phase(sp: &Space, acc: &mut Acc, max: usize) {
     let lists = scale_operands(&sp.g, &["1", "2", "1.5", "1/2", "-3", "0", "2/3", "3.0", "-7/2"], max);
     let lr = &lists;
@@ -459,6 +496,7 @@ pub fn run(ctx: &Ctx) -> i32 {
     history_phase(&sp, &mut acc);
     let scale = if ctx.thorough() { 300 } else { 100 };
     scale_phase(&sp, &mut acc, scale);
+    euclid_phase(&sp, &mut acc);
     report::finish(
         acc,
         RunInfo {
@@ -466,7 +504,7 @@ pub fn run(ctx: &Ctx) -> i32 {
             tier: ctx.tier_name(),
             seed: ctx.seed,
             exhaustive: true,
-            rule: format!("every unary op {:?} on G, every binary op {:?} on G^2, every 3-operand fold {:?} on G^3; every history (one of 20 first calls: failures part-way through an operation, successful calls that reduce ratios or leave the exact range) x (every unary / binary operation on a 12-number sub-grid) on one interpreter; every fold on operand lists of every length 3..N (all the same value, two values alternating, one operand of another kind first / in the middle / last; 9 values); |G|={} (literals and computed values); distinct = distinct (operation, outcome) pairs", UNARY, BINARY, FOLD3, sp.g.len()),
+            rule: format!("every unary op {:?} on G, every binary op {:?} on G^2, every 3-operand fold {:?} on G^3; every history (one of 20 first calls: failures part-way through an operation, successful calls that reduce ratios or leave the exact range) x (every unary / binary operation on a 12-number sub-grid) on one interpreter; every fold on operand lists of every length 3..N (all the same value, two values alternating, one operand of another kind first / in the middle / last; 9 values); quotients of Fibonacci numbers up to F(46) (Euclid depth 1..44), both signs, as divisions and as ratio literals; |G|={} (literals and computed values); distinct = distinct (operation, outcome) pairs", UNARY, BINARY, FOLD3, sp.g.len()),
             bounds: json!({"grid": sp.g.len(), "unary": sp.n1, "binary": sp.n2, "fold3": sp.n3, "scale_ladder_max_operands": scale, "overflow_checks": cfg!(debug_assertions)}),
             assumptions: vec![
                 "reference numeric tower (refnum: i128 rationals, Rust f32 IEEE ops) is correct; self-tested against R7RS 6.2.6 examples".into(),
@@ -488,6 +526,12 @@ pub fn replay(p: &serde_json::Value) -> bool {
         let o = it.eval(t);
         println!("{} => {} (reference {})", t, o, x.val);
         return !matches!(&o, Outcome::Val(v) if refnum::matches(&x.val, v));
+    }
+    if p["kind"] == "euclid" {
+        let (text, op, args) = euclid_variants(p["a"].as_i64().unwrap() as i128, p["b"].as_i64().unwrap() as i128).remove(p["variant"].as_u64().unwrap() as usize);
+        let out = it.eval(&text);
+        println!("{} => {}", text, out);
+        return matches!(judge(op, &args, &out), Verdict::Bad(_));
     }
     let op = p["op"].as_str().unwrap();
     let ops: Vec<String> = p["operands"].as_array().unwrap().iter().map(|x| x.as_str().unwrap().to_string()).collect();
